@@ -56,6 +56,20 @@ func runC03(t *testing.T, seed uint64, planJSON []byte, tier string) (res *Resul
 	case "two":
 		return runC03Two(t, seed, planJSON, tier)
 	}
+	// lock keys are about keys and row sets: favour composite / textual keys and
+	// statements touching several rows
+	atPlanTweak = func(g *simkit.Gen, o *GenOpts) {
+		if g.Prob(0.7) {
+			o.PKKinds = pickSome(g, []string{"comp", "str", "comp", "auto", "int"}, 1)
+		}
+		if g.Prob(0.6) {
+			o.MultiRow = true
+		}
+		if g.Prob(0.5) {
+			o.WhereForms = pickSome(g, []string{"in", "between", "or", "pk", "paren"}, 2)
+		}
+	}
+	defer func() { atPlanTweak = nil }()
 	return runATGeneric(t, "C03", "mixed", seed, planJSON, tier)
 }
 
